@@ -38,6 +38,8 @@ func init() {
 			{ID: "C12-R9", Title: "contexts made from nothing are an explicit table (shared with C06)", Floor: 6, Run: detachedContextsAreEnumerated},
 			{ID: "C12-R10", Title: "the mediated modules keep no run-time state", Floor: 1, Run: mediatedModulesKeepNoState},
 			{ID: "C12-R11", Title: "http request handlers run under the evaluation's context (shared with C06)", Floor: 2, Run: httpServersFollowTheEvaluation},
+			{ID: "C12-R12", Title: "OS implementations agree on the constants they answer with", Floor: 1, Run: osImplementationsAgreeOnConstants},
+			{ID: "C12-R13", Title: "attribute resolvers keep nothing across contexts", Floor: 1, Run: resolversKeepNothing},
 		},
 	})
 }
